@@ -97,7 +97,8 @@ func Gen(t *rapid.T, modes []string) Plan {
 	return p
 }
 
-func (op Op) sql() string {
+// SQL renders the operation.
+func (op Op) SQL() string {
 	switch op.Kind {
 	case "insert":
 		var sb strings.Builder
@@ -263,7 +264,7 @@ func Run(c *pbt.Case, p Plan, id string) {
 	}
 	inTx := false
 	for i, op := range p.Ops {
-		q := op.sql()
+		q := op.SQL()
 		c.Notef("step %d %s", i, q)
 		if op.Kind == "reopen" {
 			_ = db.Close()
